@@ -27,4 +27,5 @@ Definition c09_eval_deep (p : project) (texts : list str) (m : list (str * str))
       SL (map (c09_run m p) texts)].
 
 Extraction Language OCaml.
-Extraction "tt_c09.ml" c09_eval c09_eval_deep.
+Definition c07_field_skip (attrs : list str) : bool := field_skip attrs.
+Extraction "tt_c09.ml" c09_eval c09_eval_deep c07_field_skip.
